@@ -75,6 +75,71 @@ enum SVal {
     HumanReadable(Box<SVal>, Box<SVal>),
     /// the std::net types, whose serde impls consult `is_human_readable()`
     Net(NetVal),
+    /// a `serde_json::Value` (free-form parameters), serialized by serde_json's own Serialize impl
+    /// for Value / Number / Map
+    Json(Value),
+}
+
+/// Build a `serde_json::Value` from its structural encoding (lib/sergen.py):
+/// null | ["jb",bool] | ["ju","u64"] | ["ji","negative i64"] | ["jf","f64 bits"] | ["js",hex]
+/// | ["ja",[v..]] | ["jo",[[keyhex,v]..]]  (object members inserted in this order)
+fn jparse(v: &Value) -> Value {
+    if v.is_null() {
+        return Value::Null;
+    }
+    let a = v.as_array().unwrap();
+    match a[0].as_str().unwrap() {
+        "jb" => Value::Bool(a[1].as_bool().unwrap()),
+        "ju" => Value::Number(serde_json::Number::from(a[1].as_str().unwrap().parse::<u64>().unwrap())),
+        "ji" => Value::Number(serde_json::Number::from(a[1].as_str().unwrap().parse::<i64>().unwrap())),
+        "jf" => {
+            let f = f64::from_bits(a[1].as_str().unwrap().parse::<u64>().unwrap());
+            Value::Number(serde_json::Number::from_f64(f).expect("generator sends finite floats only"))
+        }
+        "js" => Value::String(hstr(&a[1])),
+        "ja" => Value::Array(a[1].as_array().unwrap().iter().map(jparse).collect()),
+        "jo" => {
+            let mut m = serde_json::Map::new();
+            for kv in a[1].as_array().unwrap() {
+                m.insert(hstr(&kv[0]), jparse(&kv[1]));
+            }
+            Value::Object(m)
+        }
+        t => panic!("bad json tag {t}"),
+    }
+}
+
+fn junparse(v: &Value) -> Value {
+    match v {
+        Value::Null => Value::Null,
+        Value::Bool(b) => json!(["jb", b]),
+        Value::Number(n) => {
+            if let Some(u) = n.as_u64() {
+                json!(["ju", u.to_string()])
+            } else if let Some(i) = n.as_i64() {
+                json!(["ji", i.to_string()])
+            } else {
+                json!(["jf", n.as_f64().unwrap_or(0.0).to_bits().to_string()])
+            }
+        }
+        Value::String(s) => json!(["js", hex(s.as_bytes())]),
+        Value::Array(a) => json!(["ja", a.iter().map(junparse).collect::<Vec<_>>()]),
+        Value::Object(m) => json!(["jo", m.iter().map(|(k, x)| json!([hex(k.as_bytes()), junparse(x)])).collect::<Vec<_>>()]),
+    }
+}
+
+/// float texts of the f64 numbers inside a Value (same token table as SVal::F64)
+fn json_float_tokens(v: &Value, out: &mut serde_json::Map<String, Value>) {
+    match v {
+        Value::Number(n) if n.as_u64().is_none() && n.as_i64().is_none() => {
+            if let Some(f) = n.as_f64() {
+                out.insert(format!("f64:{}", f.to_bits()), Value::String(hex(&serde_json::to_vec(&f).unwrap())));
+            }
+        }
+        Value::Array(a) => a.iter().for_each(|x| json_float_tokens(x, out)),
+        Value::Object(m) => m.values().for_each(|x| json_float_tokens(x, out)),
+        _ => {}
+    }
 }
 
 #[derive(Debug, Clone)]
@@ -220,6 +285,7 @@ impl Serialize for SVal {
             SVal::Net(NetVal::V6(a)) => a.serialize(ser),
             SVal::Net(NetVal::Ip(a)) => a.serialize(ser),
             SVal::Net(NetVal::Sock(a)) => a.serialize(ser),
+            SVal::Json(v) => v.serialize(ser),
         }
     }
 }
@@ -298,6 +364,7 @@ fn parse(v: &Value) -> SVal {
         "sv" => SVal::StructVariant(hname(&a[1]), us(&a[2]) as u32, hname(&a[3]), us(&a[4]), flds(&a[5])),
         "cs" => SVal::CollectStr(a[1].as_array().unwrap().iter().map(hstr).collect()),
         "hr" => SVal::HumanReadable(Box::new(parse(&a[1])), Box::new(parse(&a[2]))),
+        "json" => SVal::Json(jparse(&a[1])),
         "net" => SVal::Net(NetVal::make(
             a[1].as_str().unwrap(),
             &unhex(a[2].as_str().unwrap()),
@@ -351,6 +418,7 @@ fn unparse(v: &SVal) -> Value {
         SVal::StructVariant(n, i, var, len, fs) => json!(["sv", hx(n), i, hx(var), len, flds(fs)]),
         SVal::CollectStr(frags) => json!(["cs", frags.iter().map(|f| hx(f)).collect::<Vec<_>>()]),
         SVal::HumanReadable(a, b) => json!(["hr", unparse(a), unparse(b)]),
+        SVal::Json(v) => json!(["json", junparse(v)]),
         SVal::Net(nv) => {
             let (k, o, p) = nv.parts();
             json!(["net", k, hex(&o), p])
@@ -383,6 +451,7 @@ fn float_tokens(v: &SVal, out: &mut serde_json::Map<String, Value>) {
             float_tokens(a, out);
             float_tokens(b, out)
         }
+        SVal::Json(v) => json_float_tokens(v, out),
         SVal::Net(nv) => {
             // the Display text of the address (an opaque token for the model, like float texts)
             let (k, o, p) = nv.parts();
@@ -940,6 +1009,46 @@ fn job_net(case: &Value) -> Value {
     sw.finish(case)
 }
 
+/// `serde_json::Value` trees (free-form parameters): every kind of Number, nested in arrays,
+/// objects, Option, map values; compared with serde_json at every buffer size.
+fn job_json(case: &Value) -> Value {
+    use serde_json::Number;
+    let mut sw = Sweep::new();
+    let mut rng = Rng(case["seed"].as_u64().unwrap_or(1));
+    let mut nums: Vec<Value> = Vec::new();
+    for u in [0u64, 1, 9, 10, 255, 256, 65535, 65536, u32::MAX as u64, 1 << 53, i64::MAX as u64, (i64::MAX as u64) + 1, u64::MAX] {
+        nums.push(Value::Number(Number::from(u)));
+    }
+    for i in [-1i64, -9, -10, -128, -32768, i32::MIN as i64, -(1 << 53), i64::MIN] {
+        nums.push(Value::Number(Number::from(i)));
+    }
+    for f in [0.0f64, -0.0, 1.0, -1.5, 0.1, 1e15, 1e16, 1e21, 1e22, 1.5e-7, 1e-5, 123456789.125, 5e-324, f64::MAX, f64::MIN_POSITIVE, 1e300, -2.5e-300] {
+        nums.push(Value::Number(Number::from_f64(f).unwrap()));
+    }
+    for _ in 0..case["n"].as_u64().unwrap_or(0) {
+        let b = rng.next();
+        nums.push(Value::Number(Number::from(b >> (rng.next() % 64))));
+        nums.push(Value::Number(Number::from(-((b >> (1 + rng.next() % 63)) as i64) - 1)));
+        let f = f64::from_bits(rng.next());
+        if let Some(n) = Number::from_f64(f) {
+            nums.push(Value::Number(n));
+        }
+    }
+    let others = [Value::Null, Value::Bool(true), Value::Bool(false), json!(""), json!("a\"\n\u{1}é😀"), json!([]), json!({})];
+    for (i, n) in nums.iter().chain(others.iter()).enumerate() {
+        let o = &others[i % others.len()];
+        sw.all_sizes(&SVal::Json(n.clone()));
+        sw.all_sizes(&SVal::Json(json!([n, o, n])));
+        sw.all_sizes(&SVal::Json(json!({"b": n, "a": [o, {"z": n}], "a\"": o})));
+        sw.one(&SVal::Some(Box::new(SVal::Json(n.clone()))), false);
+        sw.one(&SVal::Struct("P", 2, vec![("id", SVal::U8(1)), ("params", SVal::Json(json!({"n": n})))]), false);
+        sw.one(&SVal::Map(Some(1), vec![(SVal::Str("k".into()), SVal::Json(n.clone()))]), false);
+        // as a key a Value is acceptable when it is a string or an integer (quoted)
+        sw.one(&entry(SVal::Json(n.clone())), !(n.is_string() || n.is_u64() || n.is_i64()));
+    }
+    sw.finish(case)
+}
+
 fn run_case(case: &Value) -> Value {
     match case["job"].as_str() {
         None => run_tree(case),
@@ -951,6 +1060,7 @@ fn run_case(case: &Value) -> Value {
         Some("f64") => job_f64(case),
         Some("collect") => job_collect(case),
         Some("net") => job_net(case),
+        Some("json") => job_json(case),
         Some(j) => panic!("unknown job {j}"),
     }
 }
